@@ -113,6 +113,10 @@ pub enum CopySpec {
     AdvConst { a: usize, value: Fe, via_assign: bool },
     /// fresh advice cell equal to a fresh fixed cell
     AdvFixed { a: usize, f: usize, value: Fe },
+    /// an equality class of 3..5 fresh cells (cell i in advice column `cols[i]`), declared by the
+    /// sequence of `constrain_equal(cells[x], cells[y])` calls `eqs` - a spanning set in a drawn
+    /// order and orientation plus redundant, cycle-closing equalities
+    Class { cols: Vec<usize>, eqs: Vec<(usize, usize)> },
 }
 
 #[derive(Clone, Debug, Default, Serialize, Deserialize, PartialEq)]
@@ -612,6 +616,23 @@ impl<P: FloorPlanner> Circuit<Fq> for GenCircuit<P> {
                         },
                     )?;
                 }
+                CopySpec::Class { cols, eqs } => {
+                    layouter.assign_region(
+                        || "copy-class",
+                        |mut region| {
+                            let v = ctx.known(|w| w.copy_vals[ci].0);
+                            let mut cells = vec![];
+                            for (i, col) in cols.iter().enumerate() {
+                                let x = region.assign_advice(|| "m", cfg.advice[*col], i, || ctx.apply(&format!("c{ci}.k{i}"), v))?;
+                                cells.push(x);
+                            }
+                            for (x, y) in eqs {
+                                region.constrain_equal(cells[*x].cell(), cells[*y].cell())?;
+                            }
+                            Ok(())
+                        },
+                    )?;
+                }
                 CopySpec::GateCell { gu, cell, b } => {
                     let src = gate_cells[gu][*cell].expect("advice gate cell");
                     let v = ctx.gate_cell(*gu, *cell);
@@ -743,7 +764,11 @@ pub fn rows_needed(spec: &Spec) -> usize {
         .copies
         .iter()
         .enumerate()
-        .map(|(i, c)| if matches!(c, CopySpec::AdvConst { .. }) { i + 1 } else { 2 })
+        .map(|(i, c)| match c {
+            CopySpec::AdvConst { .. } => i + 1,
+            CopySpec::Class { cols, .. } => cols.len(),
+            _ => 2,
+        })
         .sum();
     main + other + dynt + lu + copies + spec.unused.len() + 1
 }
@@ -870,7 +895,28 @@ pub fn gen_spec(rng: &mut Prng, o: GenOpts) -> Spec {
         (0..spec.advice.len()).filter(|i| spec.advice[*i].equality).collect();
     for _ in 0..rng.below(6) {
         let a = *rng.pick(&eq_cols);
-        let c = match rng.below(5) {
+        let c = match rng.below(6) {
+            5 => {
+                let n = rng.range(3, 5) as usize;
+                let cols: Vec<usize> = (0..n).map(|_| *rng.pick(&eq_cols)).collect();
+                // a random spanning sequence: cell i joins an earlier cell, in either orientation
+                let mut order: Vec<usize> = (0..n).collect();
+                rng.shuffle(&mut order);
+                let mut eqs = vec![];
+                for i in 1..n {
+                    let j = order[rng.usize(i)];
+                    eqs.push(if rng.chance(1, 2) { (order[i], j) } else { (j, order[i]) });
+                }
+                // redundant equalities between cells already in one class
+                for _ in 0..rng.range(1, 2) {
+                    let (x, y) = (rng.usize(n), rng.usize(n));
+                    if x != y {
+                        let at = rng.usize(eqs.len() + 1).max(2.min(eqs.len()));
+                        eqs.insert(at, (x, y));
+                    }
+                }
+                CopySpec::Class { cols, eqs }
+            }
             0 => CopySpec::AdvAdv { a, b: *rng.pick(&eq_cols) },
             1 if !spec.gate_uses.is_empty() => {
                 // copy an advice gate cell whose column has equality, into a column of >= phase
@@ -1108,6 +1154,11 @@ pub fn fault_sites(spec: &Spec) -> Vec<(String, &'static str)> {
                 v.push((format!("c{ci}.b"), "copy-advice"));
             }
             CopySpec::GateCell { .. } => v.push((format!("c{ci}.b"), "copy-advice")),
+            CopySpec::Class { cols, .. } => {
+                for i in 0..cols.len() {
+                    v.push((format!("c{ci}.k{i}"), "copy-class"));
+                }
+            }
             CopySpec::AdvInst { .. } => v.push((format!("c{ci}.a"), "copy-instance")),
             CopySpec::AdvConst { via_assign, .. } => {
                 if !via_assign {
